@@ -51,7 +51,10 @@ Definition askfirst_step (cfg : bcfg) (sts : list stage) (c : chan) : bres * cha
 
 (* LinuxBootLogin._init_machine; start = _boot_start *)
 Definition login_step (cfg : bcfg) (start : Z) (sts : list stage) (c : chan) : bres * chan * list stage :=
-  match read_until_prompt (Some (SLit LOGIN_P)) (b_timeout cfg) c with
+  match remaining cfg start c with
+  | None => (BTimeout, c, sts)
+  | Some rem0 =>
+  match read_until_prompt (Some (SLit LOGIN_P)) rem0 c with
   | (Ret _, c1) =>
       let after_delay (k : chan -> list stage -> bres * chan * list stage) :=
         if (b_login_delay cfg =? 0)%Z then k c1 sts
@@ -110,6 +113,7 @@ Definition login_step (cfg : bcfg) (start : Z) (sts : list stage) (c : chan) : b
         | (e, c6, sts6) => (berr e, c6, sts6)
         end)
   | (e, c1) => (berr e, c1, sts)
+  end
   end.
 
 Definition bringup (cfg : bcfg) (sts : list stage) (c : chan) : bres * chan * list stage :=
